@@ -42,14 +42,16 @@ def make_spec(r, heights, nrow, strategy, changes=None, reservations=None):
     W = 6.0
     gcols = {}
     body = {}
+    two = strategy != "plain" and r.random() < 0.4
+    keys = ["g0", "g1"] if two else ["g0"]
     if strategy in ("page_by", "page_by_new"):
-        body["page_by"] = ["g0"]
+        body["page_by"] = keys
         if strategy == "page_by_new":
             body["new_page"] = True
             if r.random() < 0.5:
                 body["pageby_row"] = "first_row"
     if strategy == "subline":
-        body["subline_by"] = ["g0"]
+        body["subline_by"] = keys
     if strategy != "plain":
         vals = []
         k = 0
@@ -58,8 +60,17 @@ def make_spec(r, heights, nrow, strategy, changes=None, reservations=None):
                 k += 1
             vals.append(f"@G{k}")
         gcols["g0"] = vals
+        if two:
+            # inner key: changes on its own pattern and may keep its value across an outer change
+            inner = []
+            j = 0
+            for i in range(n):
+                if i > 0 and r.random() < 0.3:
+                    j = (j + 1) % 3
+                inner.append(f"@H{j}")
+            gcols["g1"] = inner
     cols = ["id", "c0"] + list(gcols)
-    displayed = 2 + (1 if (strategy == "page_by_new" and body.get("pageby_row", "column") == "column") else 0)
+    displayed = 2 + (len(gcols) if (strategy == "page_by_new" and body.get("pageby_row", "column") == "column") else 0)
     cw = W / displayed
     rows = []
     for i in range(n):
